@@ -85,3 +85,7 @@ Definition run_req_new (a : args) : args :=
     end
   | _ => [[3]]
   end.
+
+(* flush_fault <variant, fail_at>: harness-side liveness assertion for a failing poll_flush of the transport (harness/src/conn.rs); the
+   scripted world has no flush faults, the model's answer is the expected observation *)
+Definition run_flush_fault (a : args) : args := [[1]].
